@@ -54,6 +54,13 @@ fn main() {
             args[8].parse().unwrap_or(60),
         ),
         Some("replay") if args.len() >= 3 => sup::replay(&args[2]),
+        Some("decode") if args.len() >= 3 => {
+            // debugging aid: run the repository's decoder on a byte string given as text or hex:...
+            let b = if let Some(h) = args[2].strip_prefix("hex:") { krpc::unhex(h) } else { args[2].as_bytes().to_vec() };
+            println!("btdht: {:?}", btdht::message::Message::decode(&b));
+            println!("sim:   {:?}", krpc::Msg::parse(&b));
+            0
+        }
         Some("selftest") => selftest(args.get(2).and_then(|s| s.parse().ok()).unwrap_or(24)),
         Some("show") | Some("trace") if args.len() >= 4 => {
             let p = match props::by_id(&args[2]) {
